@@ -431,7 +431,7 @@ fn check_corpus(c: &CorpusCase, rec: &mut Rec) -> Verdict {
 // ---------------------------------------------------------------------------------------------
 // nesting-depth ladder (child processes: a stack overflow aborts the process)
 
-pub const OPENERS: [&str; 9] = ["zinc-list", "zinc-dict", "zinc-grid", "zinc-grid-meta", "zinc-bare-grid", "zinc-mixed", "json-list", "json-dict", "json-grid-rows"];
+pub const OPENERS: [&str; 11] = ["zinc-list", "zinc-dict", "zinc-grid", "zinc-grid-meta", "zinc-grid-col-meta", "zinc-bare-grid", "zinc-mixed", "json-list", "json-dict", "json-grid-rows", "json-coord-in-list"];
 
 pub fn ladder_doc(opener: &str, depth: usize, closed: bool) -> String {
     let mut s = String::new();
@@ -465,6 +465,14 @@ pub fn ladder_doc(opener: &str, depth: usize, closed: bool) -> String {
                 s.push_str(&">>]\na\n1\n".repeat(depth));
             }
         }
+        "zinc-grid-col-meta" => {
+            // a grid as the value of a column meta tag, again and again (the deepest recursion path of the decoder)
+            s.push_str(&"ver:\"3.0\"\na m:<<\n".repeat(depth));
+            if closed {
+                s.push_str("ver:\"3.0\"\na\n1\n");
+                s.push_str(&">>\n1\n".repeat(depth));
+            }
+        }
         "zinc-bare-grid" => {
             // a cell that starts with the `ver` id is read as a grid without << >> markers
             s.push_str(&"ver:\"3.0\"\na\n".repeat(depth));
@@ -483,6 +491,14 @@ pub fn ladder_doc(opener: &str, depth: usize, closed: bool) -> String {
         }
         "json-list" => {
             s.push_str(&"[".repeat(depth));
+            if closed {
+                s.push_str(&"]".repeat(depth));
+            }
+        }
+        "json-coord-in-list" => {
+            // lists around a coord whose members are number *objects* (accepted), one of them not finite
+            s.push_str(&"[".repeat(depth));
+            s.push_str("{\"_kind\":\"coord\",\"lat\":{\"_kind\":\"number\",\"val\":\"NaN\"},\"lng\":{\"_kind\":\"number\",\"val\":\"-INF\"}}");
             if closed {
                 s.push_str(&"]".repeat(depth));
             }
@@ -553,7 +569,9 @@ pub fn probe_ladder(args: &[String]) -> i32 {
 }
 
 fn run_ladder(ctx: &mut Ctx) {
-    let depths: Vec<usize> = (0..=17).map(|i| 1usize << i).collect();
+    // powers of two, plus the band just below and above the decoders' documented limit of 256 levels (128 for JSON)
+    let mut depths: Vec<usize> = (0..=17).map(|i| 1usize << i).collect();
+    depths.extend([100, 120, 127, 129, 200, 240, 250, 253, 255, 257]);
     let mut jobs = vec![];
     let mut meta = vec![];
     for op in OPENERS {
@@ -621,7 +639,7 @@ fn run_ladder(ctx: &mut Ctx) {
 }
 
 pub fn run(ctx: &mut Ctx) {
-    ctx.rule("inputs: arbitrary bytes (uniform and biased to the Zinc/JSON alphabets and token dictionaries), grammar-generated valid Zinc/Hayson documents, every prefix of them (<= 320 B, exhaustively), 1-3 mutations (bit flip/insert/delete/duplicate/token splice/truncate/line-ending rewrite/extra or missing cell/deleted or duplicated line/unbalanced bracket), damaged and truncated grids, timestamps assembled from boundary parts (skipped / repeated local hours, range ends, leap seconds, offsets in and out of range, known / unknown zone names), windows of the repository's corpus files truncated and mutated, and a nesting ladder 1..131072 for 7 openers closed and unclosed in child processes on the main and a 2 MiB thread stack; readers: from_str, Parser::parse_value and parse_grid_iterator (to the first Err/None) over readers with generated chunk sizes, Interrupted returns, I/O faults of seven error kinds (once, for ever, or a timeout on every n-th call after which the caller asks again: up to 24 more parse_value calls / 48 more rows pulled), serde_json from_slice/from_str; oracle: returns Ok or Err - no panic, no fuel exhaustion (64*(len+16) scanner/lexer reads), no abort, no confirmed hang; non-trivial: input not empty and not merely a bare scalar; distinct by input hash");
+    ctx.rule("inputs: arbitrary bytes (uniform and biased to the Zinc/JSON alphabets and token dictionaries), grammar-generated valid Zinc/Hayson documents, every prefix of them (<= 320 B, exhaustively), 1-3 mutations (bit flip/insert/delete/duplicate/token splice/truncate/line-ending rewrite/extra or missing cell/deleted or duplicated line/unbalanced bracket), damaged and truncated grids, timestamps assembled from boundary parts (skipped / repeated local hours, range ends, leap seconds, offsets in and out of range, known / unknown zone names), windows of the repository's corpus files truncated and mutated, and a nesting ladder 1..131072 (powers of two and the band around the 128 / 256 level limits) for 11 openers closed and unclosed in child processes on the main and a 2 MiB thread stack; readers: from_str, Parser::parse_value and parse_grid_iterator (to the first Err/None) over readers with generated chunk sizes, Interrupted returns, I/O faults of seven error kinds (once, for ever, or a timeout on every n-th call after which the caller asks again: up to 24 more parse_value calls / 48 more rows pulled), serde_json from_slice/from_str; oracle: returns Ok or Err - no panic, no fuel exhaustion (64*(len+16) scanner/lexer reads), no abort, no confirmed hang; non-trivial: input not empty and not merely a bare scalar; distinct by input hash");
     ctx.assume("fuel ticks at every Scanner::read / Lexer::read (hook) bound every parsing loop; what the row iterator does after its first error is not asserted");
     let depth = ctx.tier.pick(2, 3) as u32;
     run_ladder(ctx);
